@@ -76,7 +76,7 @@ func r191(c *an.Ctx) {
 	n := 0
 	// the active-id check of deleteMode, wherever it is written (deleteMode itself or a helper it delegates to)
 	inDelete := map[*ssa.Function]bool{}
-	if dm := c.Prog.Func(elecPkg, "Model", "deleteMode"); dm != nil {
+	if dm := deletingMethod(c); dm != nil {
 		inDelete[dm] = true
 		for _, h := range an.TransparentCalleesOf(dm, 2) {
 			inDelete[h] = true
@@ -477,8 +477,10 @@ func r194(c *an.Ctx) {
 
 func r195(c *an.Ctx) {
 	const rule = "R19.5"
-	fn := mustFunc(c, rule, elecPkg, "Model", "deleteMode")
+	// the method that deletes from the modes collection: deleteMode, or DeleteMode when the helper was folded into it
+	fn := deletingMethod(c)
 	if fn == nil {
+		c.Unk(rule, "(*pkg/trait/electricpb.Model).deleteMode|delete", 0, "no method of Model calls modes.Delete")
 		return
 	}
 	name := "(*pkg/trait/electricpb.Model).deleteMode"
@@ -643,4 +645,20 @@ func eachInstrDeep(fn *ssa.Function, f func(ssa.Instruction)) {
 	for _, h := range an.TransparentCalleesOf(fn, 2) {
 		an.Instrs(h, f)
 	}
+}
+
+// deletingMethod: the function of the electric model that calls modes.Delete.
+func deletingMethod(c *an.Ctx) *ssa.Function {
+	var out *ssa.Function
+	for _, fn := range c.Prog.FuncsIn(elecPkg) {
+		if c.Prog.IsGenerated(fn.Pos()) {
+			continue
+		}
+		an.Instrs(fn, func(in ssa.Instruction) {
+			if f, m, ok := modelResourceCall(in); ok && f == "modes" && m == "Delete" && out == nil {
+				out = fn
+			}
+		})
+	}
+	return out
 }
